@@ -163,6 +163,21 @@ class Ctx:
         self.s.add(t == v)
         return v
 
+    def choose(self, name, n):
+        """Symbolic choice among n alternatives (a configuration variable), decided by binary splitting so that the
+        alternatives form a balanced fork tree (parallelisable, O(log n) decisions per path)."""
+        v = z3.Int(name)
+        self.s.add(v >= 0, v < n)
+        lo, hi = 0, n
+        while hi - lo > 1:
+            mid = (lo + hi) // 2
+            if self.fork(v < mid):
+                hi = mid
+            else:
+                lo = mid
+        self.s.add(v == lo)
+        return lo
+
     def model(self):
         r = self.check()
         if r != z3.sat:
